@@ -12,7 +12,7 @@
     equivalence ([neq_laws]); instances: [Qeq_bool], and [neq_abs] = what areNearlyEqual computes on values that
     are identical or more than one ulp apart. *)
 From Coq Require Import String List Bool ZArith QArith Qabs Arith Permutation.
-From LC Require Import EqualsDefs EqualsSpec EqualsProofs EqualsSimProofs EqualsCorrect EqualsAsIs EqualsMut EqualsSummary EqualsExt.
+From LC Require Import EqualsDefs EqualsSpec EqualsProofs EqualsSimProofs EqualsCorrect EqualsAsIs EqualsMut EqualsSummary EqualsExt EqualsValuesProofs.
 Import ListNotations.
 Local Close Scope Q_scope.
 
@@ -279,3 +279,56 @@ Theorem C10_equals_detects_refuted_epsilon :
   /\ eq_entity neq_abs flags_fixed (w_u (1 # 1152921504606846976)) (w_u (1 # 1180591620717411303424)) = true.
 Proof. exact EqualsAsIs.detects_refuted_epsilon. Qed.
 Print Assumptions C10_equals_detects_refuted_epsilon.
+
+(** ** Full strength for ANY comparison of doubles (EqualsValuesProofs.v)
+
+    No assumption on [neq] at all (the code's areNearlyEqual is not an equivalence: one-ulp and absolute-epsilon
+    chains).  The premise is decidable and about the INPUTS: on the exponents / multipliers that occur in the
+    entities compared, [neq] behaves as an equivalence — the values are identical or further apart than the
+    tolerance, no chains ([equiv_on], checker [equiv_onb]). *)
+
+Theorem C10_equiv_onb_sound : forall neq V, equiv_onb neq V = true -> equiv_on neq V.
+Proof. exact EqualsValuesProofs.equiv_onb_sound. Qed.
+Print Assumptions C10_equiv_onb_sound.
+
+(** on entities whose values lie in such a V, equals with [neq] IS equals with a comparison that is an equivalence
+    everywhere, whatever the switches: every theorem above that assumes [neq_laws] transfers *)
+Theorem C10_equals_transfer : forall neq V, equiv_on neq V ->
+  exists neq', neq_laws neq' /\
+    forall fl a b, incl (doubles_e a) V -> incl (doubles_e b) V -> eq_entity neq fl a b = eq_entity neq' fl a b.
+Proof. exact EqualsValuesProofs.equals_transfer. Qed.
+Print Assumptions C10_equals_transfer.
+
+(** equals is an equivalence relation on the whole value type, for any comparison of doubles, under the
+    decidable premise that rules out the tolerance chains among the values of the entities involved *)
+Theorem C10_equals_equivalence_on_values : forall neq a b c,
+  equiv_on neq (doubles_e a ++ doubles_e b ++ doubles_e c) ->
+  eq_entity neq flags_fixed a a = true
+  /\ eq_entity neq flags_fixed a b = eq_entity neq flags_fixed b a
+  /\ (eq_entity neq flags_fixed a b = true -> eq_entity neq flags_fixed b c = true -> eq_entity neq flags_fixed a c = true).
+Proof. exact EqualsValuesProofs.equals_equivalence_on_values. Qed.
+Print Assumptions C10_equals_equivalence_on_values.
+
+Theorem C10_equals_perm_invariant_on_values : forall neq a a' b,
+  equiv_on neq (doubles_e a ++ doubles_e a' ++ doubles_e b) -> shuffled a a' ->
+  eq_entity neq flags_fixed a a' = true /\ eq_entity neq flags_fixed a' a = true
+  /\ eq_entity neq flags_fixed a' b = eq_entity neq flags_fixed a b
+  /\ eq_entity neq flags_fixed b a' = eq_entity neq flags_fixed b a.
+Proof. exact EqualsValuesProofs.equals_perm_invariant_on_values. Qed.
+Print Assumptions C10_equals_perm_invariant_on_values.
+
+(** the premise cannot be dropped: 2^-53, 3*2^-53, 5*2^-53 under the code's absolute tolerance *)
+Theorem C10_equivalence_on_values_refuted :
+  exists a b c, equiv_onb neq_abs (doubles_e a ++ doubles_e b ++ doubles_e c) = false
+    /\ eq_entity neq_abs flags_fixed a b = true /\ eq_entity neq_abs flags_fixed b c = true
+    /\ eq_entity neq_abs flags_fixed a c = false.
+Proof. exact EqualsValuesProofs.equivalence_on_values_refuted. Qed.
+Print Assumptions C10_equivalence_on_values_refuted.
+
+(** non-vacuity: the code's comparison (not an equivalence) on far-apart values satisfies the premise *)
+Example C10_equivalence_on_values_nonvacuous :
+  let a := w_u 1%Q in let b := w_u (1 # 2)%Q in let c := w_u 1000%Q in
+  equiv_onb neq_abs (doubles_e a ++ doubles_e b ++ doubles_e c) = true
+  /\ eq_entity neq_abs flags_fixed a a = true /\ eq_entity neq_abs flags_fixed a b = false.
+Proof. exact EqualsValuesProofs.equivalence_on_values_nonvacuous. Qed.
+Print Assumptions C10_equivalence_on_values_nonvacuous.
